@@ -89,9 +89,10 @@ func PowReal(d Number, p float64) Number {
 		return Number{Real: quat.Inf(), Dual: quat.Inf()}
 	}
 	deriv := quat.Mul(quat.Number{Real: p}, quat.Pow(d.Real, quat.Number{Real: p - 1}))
+	fn := quat.Pow(d.Real, quat.Number{Real: p})
 	return Number{
-		Real: quat.Pow(d.Real, quat.Number{Real: p}),
-		Dual: quat.Mul(d.Dual, deriv),
+		Real: fn,
+		Dual: chain(d, fn, func(par quat.Number) quat.Number { return quat.Mul(par, deriv) }),
 	}
 }
 
@@ -125,7 +126,7 @@ func Exp(d Number) Number {
 	fnDeriv := quat.Exp(d.Real)
 	return Number{
 		Real: fnDeriv,
-		Dual: quat.Mul(fnDeriv, d.Dual),
+		Dual: chain(d, fnDeriv, func(par quat.Number) quat.Number { return quat.Mul(fnDeriv, par) }),
 	}
 }
 
@@ -150,8 +151,31 @@ func Log(d Number) Number {
 			Dual: zeroQuat,
 		}
 	}
+	fn := quat.Log(d.Real)
 	return Number{
-		Real: quat.Log(d.Real),
-		Dual: quat.Mul(d.Dual, quat.Inv(d.Real)),
+		Real: fn,
+		Dual: chain(d, fn, func(par quat.Number) quat.Number { return quat.Mul(par, quat.Inv(d.Real)) }),
 	}
+}
+
+// chain returns the dual part of f(d) for a function f with f(q̅) = f(q)̅,
+// given fr = f(d.Real) and deriv, which applies f′(d.Real) to its argument.
+//
+// Quaternion multiplication does not commute, so the chain rule
+// f′(r)·Dual holds only for the component par of the dual part that
+// commutes with the real part r. For the remaining component perp, for
+// which r·perp = perp·r̅, the factor is the divided difference
+// (f(r)-f(r̅))/(r-r̅), which is real.
+func chain(d Number, fr quat.Number, deriv func(par quat.Number) quat.Number) quat.Number {
+	r, s := d.Real, d.Dual
+	vv := r.Imag*r.Imag + r.Jmag*r.Jmag + r.Kmag*r.Kmag
+	if vv == 0 || (s.Imag == 0 && s.Jmag == 0 && s.Kmag == 0) {
+		// r is real or the dual part is: everything commutes.
+		return deriv(s)
+	}
+	c := (s.Imag*r.Imag + s.Jmag*r.Jmag + s.Kmag*r.Kmag) / vv
+	par := quat.Number{Real: s.Real, Imag: c * r.Imag, Jmag: c * r.Jmag, Kmag: c * r.Kmag}
+	perp := quat.Sub(s, par)
+	dd := (fr.Imag*r.Imag + fr.Jmag*r.Jmag + fr.Kmag*r.Kmag) / vv
+	return quat.Add(deriv(par), quat.Scale(dd, perp))
 }
